@@ -7,6 +7,7 @@ import (
 	"os"
 	"os/exec"
 	"path/filepath"
+	"regexp"
 	"sort"
 	"strconv"
 	"strings"
@@ -51,6 +52,10 @@ func repoTestTraces(run *evid.Run, props map[string]bool) (conns, events int) {
 	if err != nil {
 		// a failing repository test is not this check's business (and happens with seeded changes)
 		fmt.Printf("NOTE: the repository's own tests did not pass with the verif tag: %v\n%s\n", err, tailText(string(out), 600))
+	}
+	if _, err := os.Stat(tf); err == nil {
+		ss := repoStepTraces(run, tf)
+		fmt.Printf("repo tests as step traces: %d connections, %d within the specification's alphabet (%d steps) explained by SmtpServer!Next, %d rejected; outside the alphabet: %v\n", ss.Conns, ss.InAlphabet, ss.Steps, ss.Rejected, ss.Skipped)
 	}
 	f, err := os.Open(tf)
 	if err != nil {
@@ -163,4 +168,320 @@ func repoTestTraces(run *evid.Run, props map[string]bool) (conns, events int) {
 			Replay: map[string]interface{}{"engine": "repo-tests", "what": what, "event_index": idx - 1}})
 	}
 	return
+}
+
+// ---------------------------------------------------------------------------
+// The repository's tests as step traces, explained by SmtpServer!Next
+// (spec/Trace_RepoTests.tla).
+
+type hookFull struct {
+	Pid  int                    `json:"pid"`
+	Conn int                    `json:"conn"`
+	Seq  int                    `json:"seq"`
+	Ev   string                 `json:"ev"`
+	Args []string               `json:"args"`
+	Cfg  map[string]interface{} `json:"cfg"`
+	St   *struct {
+		Helo     string `json:"helo"`
+		Session  bool   `json:"session"`
+		From     bool   `json:"from"`
+		Rcpts    int    `json:"rcpts"`
+		Bdat     bool   `json:"bdat"`
+		DidAuth  bool   `json:"didAuth"`
+		ErrCount int    `json:"errCount"`
+		LMTP     *bool  `json:"lmtp"`
+	} `json:"st"`
+}
+
+var reBdat = regexp.MustCompile(`^BDAT ([0-9]{1,6})( LAST)?$`)
+var reGreet = regexp.MustCompile(`^(EHLO|HELO|LHLO) [A-Za-z0-9.\-]+$`)
+
+// repoLineCmd maps a command line of the test suite to the specification's
+// command, from the text of the line alone; ok=false: not in the alphabet.
+func repoLineCmd(line string) (map[string]interface{}, bool) {
+	up := strings.ToUpper(line)
+	mk := func(c string) map[string]interface{} {
+		return map[string]interface{}{"c": c, "n": 0, "l": false, "sized": false}
+	}
+	switch {
+	case reGreet.MatchString(line):
+		return mk(line[:4]), true
+	case strings.HasPrefix(up, "MAIL FROM:") && !strings.Contains(up, "BODY=") && !strings.Contains(up, "SMTPUTF8") && !strings.Contains(up, "REQUIRETLS"):
+		return mk("MAIL"), true
+	case strings.HasPrefix(up, "RCPT TO:") && !strings.Contains(up, "RRVS="):
+		return mk("RCPT"), true
+	case line == "DATA":
+		return mk("DATA"), true
+	case reBdat.MatchString(line):
+		m := reBdat.FindStringSubmatch(line)
+		n, _ := strconv.Atoi(m[1])
+		return map[string]interface{}{"c": "BDAT", "n": n, "l": m[2] != "", "sized": true}, true
+	case line == "RSET" || line == "NOOP" || line == "HELP" || line == "QUIT" || line == "VRFY":
+		return mk(line), true
+	case strings.HasPrefix(line, "AUTH PLAIN"):
+		return mk("AUTH"), true
+	case line == "XXXX":
+		return mk("BAD"), true
+	}
+	return nil, false
+}
+
+type repoStepStats struct {
+	Conns, InAlphabet, Steps, Rejected int
+	Skipped                           []string
+}
+
+// repoStepTraces: see Trace_RepoTests.tla. props: the properties the caller reports.
+func repoStepTraces(run *evid.Run, tf string) repoStepStats {
+	var stats repoStepStats
+	f, err := os.Open(tf)
+	if err != nil {
+		evid.Inconclusive("repo test traces: %v", err)
+	}
+	defer f.Close()
+	byConn := map[[2]int][]hookFull{}
+	sc := bufio.NewScanner(f)
+	sc.Buffer(make([]byte, 1<<20), 1<<26)
+	for sc.Scan() {
+		var r hookFull
+		if json.Unmarshal(sc.Bytes(), &r) != nil {
+			continue
+		}
+		k := [2]int{r.Pid, r.Conn}
+		byConn[k] = append(byConn[k], r)
+	}
+	var keys [][2]int
+	for k := range byConn {
+		keys = append(keys, k)
+	}
+	sort.Slice(keys, func(i, j int) bool { return keys[i][0]*100000+keys[i][1] < keys[j][0]*100000+keys[j][1] })
+	type connTrace struct {
+		lines []string
+		evs   []map[string]interface{}
+	}
+	var traces []connTrace
+	for _, k := range keys {
+		evs := byConn[k]
+		sort.SliceStable(evs, func(i, j int) bool { return evs[i].Seq < evs[j].Seq })
+		if len(evs) == 0 || evs[0].Ev != "open" || evs[0].Cfg == nil {
+			continue
+		}
+		stats.Conns++
+		c := evs[0].Cfg
+		ct := connTrace{}
+		ct.evs = append(ct.evs, map[string]interface{}{"ev": "reset", "cfg": map[string]interface{}{
+			"lmtp": c["lmtp"], "maxRcpt": c["maxRcpt"], "maxBytes": c["maxBytes"], "tlsAvail": c["tlsAvail"],
+			"insecureAuth": c["insecureAuth"], "binarymime": c["binarymime"], "dsn": c["dsn"]}})
+		// a connection that lives until the test closes the SERVER is torn down from
+		// another goroutine: its Logout (and the cleared session) can land anywhere in
+		// the step that happens to be running - the trace ends before that step
+		teardown := false
+		for j := len(evs) - 1; j >= 0; j-- {
+			if evs[j].Ev == "line" {
+				teardown = len(evs[j].Args) > 1 && strings.Contains(evs[j].Args[1], "use of closed network connection")
+				break
+			}
+		}
+		if teardown {
+			for j := range evs {
+				if evs[j].Ev == "cb.Logout" && len(evs[j].Args) > 0 && evs[j].Args[0] == "close" {
+					cut := j
+					for k := j - 1; k > 0; k-- {
+						if evs[k].Ev == "handled" {
+							break
+						}
+						if evs[k].Ev == "line" {
+							cut = k
+							break
+						}
+					}
+					evs = evs[:cut]
+					break
+				}
+			}
+		}
+		var cur map[string]interface{}
+		ok := true
+		why := ""
+		flush := func(st *hookFull) {
+			if cur == nil {
+				return
+			}
+			if st != nil && st.St != nil {
+				cur["st"] = map[string]interface{}{"helo": st.St.Helo != "", "session": st.St.Session, "from": st.St.From, "rcpts": st.St.Rcpts,
+					"bdat": st.St.Bdat, "didAuth": st.St.DidAuth, "errCount": st.St.ErrCount}
+				cur["nost"] = false
+			}
+			ct.evs = append(ct.evs, cur)
+			cur = nil
+		}
+		newStep := func(cmd map[string]interface{}) {
+			cur = map[string]interface{}{"ev": "step", "cmd": cmd, "replies": []string{}, "cbs": []string{}, "nost": true,
+				"st": map[string]interface{}{"helo": false, "session": false, "from": false, "rcpts": 0, "bdat": false, "didAuth": false, "errCount": 0}}
+		}
+		for i := 1; i < len(evs) && ok; i++ {
+			e := evs[i]
+			switch e.Ev {
+			case "line":
+				flush(nil)
+				if len(e.Args) < 2 {
+					ok, why = false, "line event without arguments"
+					break
+				}
+				if e.Args[1] != "<nil>" {
+					if e.Args[1] == "EOF" {
+						newStep(map[string]interface{}{"c": "EOF", "n": 0, "l": false, "sized": false})
+					} else if strings.Contains(e.Args[1], "use of closed network connection") {
+						// the test closed the server under the connection: the trace ends here
+						i = len(evs)
+					} else if strings.Contains(e.Args[1], "too long a line") {
+						newStep(map[string]interface{}{"c": "LONG", "n": 0, "l": false, "sized": false})
+					} else {
+						ok, why = false, "line read error "+e.Args[1]
+					}
+					break
+				}
+				cmd, in := repoLineCmd(e.Args[0])
+				if !in {
+					ok, why = false, fmt.Sprintf("line %q", e.Args[0])
+					break
+				}
+				ct.lines = append(ct.lines, e.Args[0])
+				newStep(cmd)
+			case "authline":
+				// a SASL response line: the AUTH step ends, an ARESP step begins
+				ee := e
+				flush(&ee)
+				newStep(map[string]interface{}{"c": "ARESP", "n": 0, "l": false, "sized": false})
+			case "reply":
+				if cur == nil {
+					if len(ct.evs) == 1 {
+						continue // the greeting
+					}
+					ok, why = false, "reply outside a step"
+					break
+				}
+				code, _ := strconv.Atoi(e.Args[0])
+				cls := "neg"
+				if code/100 == 2 {
+					cls = "pos"
+				} else if code/100 == 3 {
+					cls = "int"
+				}
+				cur["replies"] = append(cur["replies"].([]string), cls)
+			case "cb.NewSession":
+				if cur != nil {
+					n := "NewSession"
+					if len(e.Args) > 0 && e.Args[0] != "<nil>" {
+						n = "NewSession.fail"
+					}
+					cur["cbs"] = append(cur["cbs"].([]string), n)
+				}
+			case "cb.Reset":
+				if cur != nil {
+					cur["cbs"] = append(cur["cbs"].([]string), "Reset")
+				}
+			case "cb.Logout":
+				if cur != nil {
+					cur["cbs"] = append(cur["cbs"].([]string), "Logout")
+				} else {
+					// the connection is being closed by the peer: the EOF step that follows owns it
+					newStep(map[string]interface{}{"c": "EOF", "n": 0, "l": false, "sized": false})
+					cur["cbs"] = append(cur["cbs"].([]string), "Logout")
+				}
+			case "handled":
+				if lm, isb := c["lmtp"].(bool); isb && e.St != nil && e.St.LMTP != nil && *e.St.LMTP != lm {
+					ok, why = false, "the test changes Server.LMTP under an open connection"
+					break
+				}
+				ee := e
+				flush(&ee)
+			case "end":
+				flush(nil)
+			}
+		}
+		flush(nil)
+		if n := len(ct.lines); ok && n > 0 && reBdat.MatchString(ct.lines[n-1]) && !strings.HasSuffix(ct.lines[n-1], "LAST") {
+			// the conversation ends inside or right behind a non-final chunk: whether the
+			// chunk was complete is not visible in the hook events
+			ok, why = false, "ends with a non-final BDAT"
+		}
+		if !ok {
+			stats.Skipped = append(stats.Skipped, why)
+			continue
+		}
+		stats.InAlphabet++
+		stats.Steps += len(ct.evs) - 1
+		traces = append(traces, ct)
+	}
+	if len(traces) == 0 {
+		return stats
+	}
+	validate := func(ts []connTrace) (bool, int, string) {
+		var nd strings.Builder
+		n := 0
+		for _, t := range ts {
+			for _, e := range t.evs {
+				b, _ := json.Marshal(e)
+				nd.Write(b)
+				nd.WriteByte('\n')
+				n++
+			}
+		}
+		res, err := tlcrun.Run("Trace_RepoTests", "Trace_RepoTests.cfg", tlcrun.Opts{Workers: 1, Tags: []string{"HWM"}, Files: map[string][]byte{"rtrace.ndjson": []byte(nd.String())}})
+		if res == nil || len(res.Tagged["HWM"]) == 0 {
+			evid.Inconclusive("Trace_RepoTests gave no verdict: %v\n%s", err, tailOut(res))
+		}
+		hwm, _ := strconv.Atoi(res.Tagged["HWM"][len(res.Tagged["HWM"])-1])
+		inv := ""
+		if res.Violation != "" && !strings.Contains(res.Violation, "TraceAccepted") && !strings.Contains(res.Violation, "Postcondition") {
+			inv = res.Violation
+		}
+		return hwm == n+1 && res.OK, hwm, inv
+	}
+	if okAll, _, _ := validate(traces); okAll {
+		return stats
+	}
+	for _, t := range traces {
+		good, hwm, inv := validate([]connTrace{t})
+		if good {
+			continue
+		}
+		stats.Rejected++
+		if stats.Rejected > 5 {
+			continue
+		}
+		bad := hwm - 1
+		if inv != "" && bad > 1 {
+			bad--
+		}
+		if bad < 0 || bad >= len(t.evs) {
+			bad = len(t.evs) - 1
+		}
+		b, _ := json.Marshal(t.evs[bad])
+		what := "is not a step SmtpServer.tla allows there"
+		if inv != "" {
+			what = "violates " + inv
+		}
+		if os.Getenv("VERIF_RT_DEBUG") != "" {
+			fmt.Printf("REJECTED %q step %d %s %s\n", t.lines, bad, b, what)
+		}
+		for _, p := range []string{"C03", "C04", "C08"} {
+			run.Report(evid.Div{Prop: p, Key: fmt.Sprintf("repo-tests:steps:%s", fmt.Sprint(t.evs[bad]["cmd"])),
+				Msg:    fmt.Sprintf("a connection of the repository's own test suite (commands %q): step %d %s %s", t.lines, bad, b, what),
+				Replay: map[string]interface{}{"engine": "repo-tests-steps", "lines": t.lines, "events": t.evs[:bad+1]}})
+		}
+	}
+	return stats
+}
+
+func init() {
+	// development aid: validate an existing hook trace file (VERIF_RT_FILE) as step traces
+	checks["RTDEV"] = func(tier string) {
+		run := evid.NewRun("C03", tier)
+		ss := repoStepTraces(run, os.Getenv("VERIF_RT_FILE"))
+		fmt.Printf("%+v\n", ss)
+		fmt.Printf("divs=%d\n", run.NumDivs())
+		os.Exit(0)
+	}
 }
